@@ -114,7 +114,9 @@ func c10Oracle(w *world, r *worldResult) (violation, outcome string) {
 		}
 	}
 	deleted := st.Delete && st.Side == "client" && r.StopHit && outcome != "completed" &&
-		strings.Contains(said+r.ClientFail+r.ServerFail+r.SrvErr, "Stopped and deleted")
+		(strings.Contains(said+r.ClientFail+r.ServerFail+r.SrvErr, "Stopped and deleted") ||
+			// a receiving client that was stopped inside a read reports the plain error with the list of what it removed
+			strings.Contains(said+r.ClientFail+r.ServerFail+r.SrvErr, "Stopped:\r\n- "))
 	if deleted {
 		outcome = "stopped-and-deleted"
 		// everything this transfer created (or had begun to replace) is gone
@@ -135,18 +137,38 @@ func c10Oracle(w *world, r *worldResult) (violation, outcome string) {
 			recvStream = r.ClientSent
 		}
 		done := completedFiles(recvStream)
-		i := 0
-		for _, e := range w.entries {
-			if e.Dir || w.archiveMode() {
-				continue
+		// the files in the order the sender announced them (not the order of the tree recipe)
+		sendStream := r.ClientSent
+		if w.p.Dir == "down" {
+			sendStream = r.ServerSent
+		}
+		var order []string
+		for _, nm := range decodeLinesRaw(sendStream, "NAME") {
+			var sf struct {
+				RelPath []string `json:"path_name"`
+				IsDir   bool     `json:"is_dir"`
 			}
-			if i < done {
-				k := e.Path
-				if got, ok := r.Dst[k]; !ok || got != want[k] {
-					return fmt.Sprintf("file %s was completed and verified before the stop but is %q at the destination (want %s)", k, got, want[k]), outcome
+			if json.Unmarshal(nm, &sf) == nil && len(sf.RelPath) > 0 {
+				if !sf.IsDir {
+					order = append(order, strings.Join(sf.RelPath, "/"))
+				}
+			} else {
+				order = append(order, string(nm))
+			}
+		}
+		if !w.archiveMode() {
+			for i, k := range order {
+				if i >= done {
+					break
+				}
+				wantK, known := want[k]
+				if !known {
+					continue // stored under a fresh name: not mapped here
+				}
+				if got, ok := r.Dst[k]; !ok || got != wantK {
+					return fmt.Sprintf("file %s was completed and verified before the stop but is %q at the destination (want %s)", k, got, wantK), outcome
 				}
 			}
-			i++
 		}
 	}
 	// (workers left behind by a failed transfer are C11's subject, not C10's)
